@@ -88,6 +88,23 @@ CLAIMED = {
         "Trusted: Lean kernel + standard axioms; sha256 prefix collision-freedom (HashInj); which SQL an operation issues is observed, not modelled; one linker per DatabaseAPI.",
         "DESIGN.md §6 C07",
     ),
+    "C15": (
+        "Lean 4 theorems about a model of accuracy.py (one def per CTE of the truth-space pipeline, window sums, ghost negatives from the generated calculate_cartesian, found-by-blocking flag, "
+        "lower id to the left, prediction-error selections): every row's TP/FP/FN/TN/P/N/total is the direct recount at that threshold (not-found pairs predicted negative when the option is on), "
+        "conservation identities, monotonicity in the threshold, exactly one row per distinct score, error outputs are exactly the strict false positives / negatives with their status, label "
+        "orientation is irrelevant. Tie: truth rows, all 17 rate columns, error rows and prepared labels of the real functions vs the compiled model (labels tables in both orientations, label "
+        "columns with NULLs, ties, blocking that misses pairs, all link types, duckdb+sqlite); independent recount oracle with textbook metric definitions.",
+        "Trusted: Lean kernel + standard axioms; scoring itself is C02's subject (scores are inputs here); rate columns are float expressions checked by correspondence and oracle, not by theorem.",
+        "DESIGN.md §6 C15",
+    ),
+    "C20": (
+        "Lean 4 theorems about a model of term_frequencies.py / completeness.py / comparison_vector_distribution.py / match_weights_histogram.py / unlinkables.py: TF = count(value)/count(non-NULL) "
+        "with numerators summing to the denominator, the TF joined onto a record is its value's entry (NULL for NULL), completeness is an exact recount per dataset and column, comparison-vector groups "
+        "and histogram bins partition the scored pairs with exact counts, bin containment/uniqueness and closest-width choice, unlinkables cumulative counts. Tie: the record lists of the real functions "
+        "vs the compiled model on NULL-heavy / single-valued / all-distinct columns, 1-3 tables, duckdb+sqlite; independent recount oracle.",
+        "Trusted: Lean kernel + standard axioms; float division and 32-bit casts not modelled (tolerances); SQLite vs DuckDB rounding at exact half-units excepted; scoring is C02's subject.",
+        "DESIGN.md §6 C20",
+    ),
 }
 PENDING_REASON = "check not built yet (model/theorems/correspondence under construction per DESIGN.md §10b); not claimed until all three exist"
 
